@@ -3,13 +3,13 @@ package main
 // Forward symbolic execution of go/ssa functions (DESIGN §2, Appendix B).
 
 import (
-	"sync"
 	"crypto/sha1"
 	"fmt"
 	"go/token"
 	"go/types"
 	"os"
 	"strings"
+	"sync"
 
 	"golang.org/x/tools/go/ssa"
 )
@@ -30,13 +30,13 @@ type ghostNode struct {
 }
 
 type State struct {
-	pc    *pcNode
-	h     [4]*HeapLayer
-	brk   *Term
-	ghost *ghostNode
-	gepoch int
-	kepoch *ghostNode // per-kind epochs (name = kind, val = const epoch)
-	lastHead *State   // state at the head of the loop iteration this path is in (cut loops)
+	pc       *pcNode
+	h        [4]*HeapLayer
+	brk      *Term
+	ghost    *ghostNode
+	gepoch   int
+	kepoch   *ghostNode // per-kind epochs (name = kind, val = const epoch)
+	lastHead *State     // state at the head of the loop iteration this path is in (cut loops)
 }
 
 func (st State) assume(t *Term) State {
@@ -272,23 +272,23 @@ func (fr *Frame) clone() *Frame {
 }
 
 type Obligation struct {
-	Name    string
-	Kind    string
-	Label   string
-	Func    string
-	Pos     string
-	Props   []string
-	PropLvl bool // property-level (may raise a VIOLATION)
-	Asserts []*Term // hypotheses in the goal's cone of influence + negated goal
-	Full    []*Term // all hypotheses + negated goal (used to confirm a sat answer)
-	Goal    string
-	ctx     *Ctx
-	exec    *Exec
-	queries []*Term // terms to evaluate in a model
-	qnames  []string
-	Trivial bool // goal folded to true syntactically
-	Hints   []*Term // cover obligations only: extra equalities that pick one concrete witness (sound: sat with hints implies sat without)
-	TimeoutS int // per-function override of the quick-tier solver timeout
+	Name     string
+	Kind     string
+	Label    string
+	Func     string
+	Pos      string
+	Props    []string
+	PropLvl  bool    // property-level (may raise a VIOLATION)
+	Asserts  []*Term // hypotheses in the goal's cone of influence + negated goal
+	Full     []*Term // all hypotheses + negated goal (used to confirm a sat answer)
+	Goal     string
+	ctx      *Ctx
+	exec     *Exec
+	queries  []*Term // terms to evaluate in a model
+	qnames   []string
+	Trivial  bool    // goal folded to true syntactically
+	Hints    []*Term // cover obligations only: extra equalities that pick one concrete witness (sound: sat with hints implies sat without)
+	TimeoutS int     // per-function override of the quick-tier solver timeout
 
 	// filled by discharge
 	Result string // unsat / sat / unknown / timeout
@@ -330,36 +330,36 @@ type Exec struct {
 	assumed  map[string]bool
 	lineHash map[string]int
 	// inputs for replay: param name -> Val
-	paramVals  []Val
-	paramNames []string
-	curProps   []string
-	mode       string
-	closures   map[*Term]*closure
+	paramVals    []Val
+	paramNames   []string
+	curProps     []string
+	mode         string
+	closures     map[*Term]*closure
 	constGlobals map[*Term]bool
-	locals     []*Region
-	stack      []*ssa.Function
-	forceInline bool
-	noCut      bool
-	yieldMode  bool // second run of a function with 'yields' clauses: loops unrolled, results must be terms over the arguments
-	prune      bool
-	nFeas      int
-	freshGhost map[uint32]bool
+	locals       []*Region
+	stack        []*ssa.Function
+	forceInline  bool
+	noCut        bool
+	yieldMode    bool // second run of a function with 'yields' clauses: loops unrolled, results must be terms over the arguments
+	prune        bool
+	nFeas        int
+	freshGhost   map[uint32]bool
 	ghostBounded map[*Term]bool
-	recovering int
-	gepochs    int
-	rootEntrySt State
-	escaped    map[*Term]bool
-	times      map[*Term]civil
-	fpBits     map[*Term]*Term
-	fpOf       map[*Term]*Term
-	globalList []*Region
-	initMode   bool
-	rootDet    *cval
-	mute       int
-	steps      int
-	maxSteps   int
-	noDecr     []string
-	bounded    []string
+	recovering   int
+	gepochs      int
+	rootEntrySt  State
+	escaped      map[*Term]bool
+	times        map[*Term]civil
+	fpBits       map[*Term]*Term
+	fpOf         map[*Term]*Term
+	globalList   []*Region
+	initMode     bool
+	rootDet      *cval
+	mute         int
+	steps        int
+	maxSteps     int
+	noDecr       []string
+	bounded      []string
 }
 
 func newExec(P *Program) *Exec {
